@@ -173,7 +173,11 @@ func (e *xExec) step(line string) (out string) {
 		t0 := append([]byte{}, t...)
 		want := naiveSA(t)
 		var first []int32
-		for _, th := range [][2]int{{7, 0}, {1, 1}, {2, 2}, {3, 3}, {8, 5}, {64, 64}} {
+		ths := [][2]int{{7, 0}, {1, 1}, {2, 2}, {3, 3}, {8, 5}, {64, 64}}
+		if len(t) > 64 {
+			ths = [][2]int{{7, 0}, {2, 3}} // every Sort allocates 0.5 MB of bucket tables
+		}
+		for _, th := range ths {
 			sa := make([]int32, len(t))
 			for i := range sa {
 				sa[i] = int32(-77 + i*31)
